@@ -26,7 +26,7 @@ import re
 
 RULES = ["lowercase", "UPPERCASE", "PascalCase", "camelCase", "snake_case", "SCREAMING_SNAKE_CASE",
          "kebab-case", "SCREAMING-KEBAB-CASE"]
-STYLES = ["a", "user_name", "a_b_c", "x1", "URLPath"]          # DESIGN section 5
+STYLES = ["a", "user_name", "a_b_c", "x1", "URLPath", "line_2nd"]   # DESIGN section 5 + a segment that starts with a digit and goes on with a letter
 STYLES_EXT = ["_lead", "dbl__us", "r#type"]                      # amendments: empty word segments, raw identifier
 VSTYLES = ["Alpha", "FooBar", "URLPath", "X1"]                   # variant-name styles
 FIELD_ATTRS = ["none", "rename", "default", "skip", "skip_serializing", "skip_deserializing",
